@@ -151,6 +151,9 @@ TW('C01', 'twin-eigh-regularised-reordered', DS, "  regularized_input = matrix +
   "  regularized_input = identity * ridge_epsilon + matrix\n  e, u = jnp.linalg.eigh(regularized_input)\n  # Due to padding, we may have to zero out eigenvalues.\n  if padding_start is not None:\n    e *= jnp.flip(ix)\n  mm = functools.partial(jnp.matmul, precision=precision)")
 TW('C01', 'twin-epilogue-mirrored', DS, "    resultant_mat_h = jnp.where(padding_start == 0, 0.0, resultant_mat_h)\n", "    resultant_mat_h = jnp.where(0 != padding_start, resultant_mat_h, 0.0)\n")
 
+M(['C01', 'C03'], 'F21-size1-error-constant', DS, "    error = jnp.max(\n        jnp.where(jnp.isfinite(resultant_mat_h), 0.0, jnp.nan)).astype(\n            jnp.float32)\n", "    error = jnp.array(0, jnp.float32)\n")
+TW(['C01', 'C03'], 'twin-size1-error-residual', DS, "    error = jnp.max(\n        jnp.where(jnp.isfinite(resultant_mat_h), 0.0, jnp.nan)).astype(\n            jnp.float32)\n", "    error = jnp.max(jnp.abs(resultant_mat_h**p * damped_matrix - 1.0)).astype(jnp.float32)\n")
+
 # ------------------------------------------------------------------ C02
 M('C02', 'momentum-wrong-buffer', DS, "        state.momentum.to_float() * beta1 + w * shampoo_update_with_wd)", "        state.diagonal_momentum.to_float() * beta1 + w * shampoo_update_with_wd)")
 M('C02', 'wd-before-graft-rescale', DS, "    shampoo_update = precond_grad * multiplier\n", "    shampoo_update = (precond_grad + weight_decay * param) * multiplier\n")
